@@ -14,4 +14,5 @@ PY
 (cd coq && timeout 3000 make -j16 > ../.cache/coq-build.log 2>&1) || { tail -40 .cache/coq-build.log; exit 1; }
 python3 -c "import sys; sys.path.insert(0,'.'); from vlib import core; core.render_harness_manifest()"
 (cd harness && RUSTFLAGS="--cfg jrsonnet_verif" CARGO_TARGET_DIR="$PWD/../.cache/target" cargo build --offline --quiet)
+(cd "${VERIF_REPO:-/repo}" && CARGO_PROFILE_DEV_DEBUG=0 RUSTFLAGS="--cfg jrsonnet_verif" cargo build --offline --quiet -p jrsonnet -p jrsonnet-fmt -p jrsonnet-deps -p libjsonnet --target-dir "$OLDPWD/.cache/target-repo")
 echo setup done
